@@ -43,6 +43,7 @@ func pcacheMain(args []string) int {
 	limit := fs.Int("limit", 0, "max schedules")
 	stressN := fs.Int("stress", 0, "fake types per stress round (crosses the 2048-entry rehash when > 2048)")
 	apiN := fs.Int("api", 0, "fresh reflect-built types for the public API stress")
+	encScale := fs.Int("encscale", 1, "rounds multiplier of the concurrent-encode stress (1 under the race detector)")
 	fs.Parse(args)
 	t0 := time.Now()
 	type sum struct {
@@ -418,6 +419,60 @@ func pcacheMain(args []string) int {
 			}
 		}
 		S.Stress["same_type_rounds"] = 3
+		// ---- stress 4: concurrent ENCODES of one warmed type whose content differs per goroutine, through every pooled helper of
+		// the encoder (compaction of marshaler output, HTML escaping pass, sorted-map iterator, TextMarshaler keys, buffers on both
+		// sides of the pool's size limit): each result must be what the same call returns alone
+		type encDoc struct {
+			ID    int                        `json:"id"`
+			Pad   string                     `json:"pad"`
+			Raw   []json.RawMessage          `json:"raw"`
+			M     map[string]json.RawMessage `json:"m"`
+			TK    map[pcTextKey]int          `json:"tk"`
+			Items []pcMarsh                  `json:"items"`
+		}
+		mkDoc := func(g, size int) *encDoc {
+			letter := string(rune('a' + g%26))
+			d := &encDoc{ID: g, Pad: strings.Repeat(letter+"<&>", size/16), M: map[string]json.RawMessage{}, TK: map[pcTextKey]int{}}
+			for i := 0; i < 6; i++ {
+				d.Raw = append(d.Raw, json.RawMessage(fmt.Sprintf("{ \"id\" : %d ,\n \"body\" : %q }", g, strings.Repeat(letter, size/8))))
+				d.M[fmt.Sprintf("k%d_%d", g, i)] = json.RawMessage(fmt.Sprintf("[ %d , %d ]", g, i))
+				d.TK[pcTextKey{fmt.Sprintf("t%d_%d", g, i)}] = g
+				d.Items = append(d.Items, pcMarsh{g, strings.Repeat(letter, size/32)})
+			}
+			return d
+		}
+		for _, plan := range []struct{ size, rounds int }{{256, 40 * *encScale}, {16 << 10, 6 * *encScale}, {160 << 10, 2 * *encScale}} {
+			var docsE []*encDoc
+			var wantE [][]byte
+			for g := 0; g < G; g++ {
+				d := mkDoc(g, plan.size)
+				w, err := sonic.ConfigStd.Marshal(d)
+				if sb, _ := json.Marshal(d); err != nil || !bytes.Equal(w, sb) {
+					addBad(pcBad{Kind: "api_mismatch", Det: fmt.Sprintf("sequential encode differs from encoding/json (size %d): %v", plan.size, err), Sig: "api_encode_sequential"})
+				}
+				docsE, wantE = append(docsE, d), append(wantE, w)
+			}
+			var wg3 sync.WaitGroup
+			for g := 0; g < G; g++ {
+				g := g
+				wg3.Add(1)
+				go func() {
+					defer wg3.Done()
+					for r := 0; r < plan.rounds; r++ {
+						got, err := sonic.ConfigStd.Marshal(docsE[g])
+						if err != nil || !bytes.Equal(got, wantE[g]) {
+							mu.Lock()
+							addBad(pcBad{Kind: "api_mismatch", Det: fmt.Sprintf("concurrent encode, goroutine %d round %d (size %d): result differs from the call alone (%v)", g, r, plan.size, err),
+								Sig: "api_concurrent_encode_mismatch"})
+							mu.Unlock()
+							return
+						}
+					}
+				}()
+			}
+			wg3.Wait()
+		}
+		S.Stress["concurrent_encode_sizes"] = 3
 	}
 	S.WallS = time.Since(t0).Seconds()
 	b, _ := json.MarshalIndent(S, "", " ")
@@ -427,6 +482,19 @@ func pcacheMain(args []string) int {
 		os.Stdout.Write(b)
 	}
 	return 0
+}
+
+type pcTextKey struct{ K string }
+
+func (k pcTextKey) MarshalText() ([]byte, error) { return []byte("key:" + k.K), nil }
+
+type pcMarsh struct {
+	G int
+	S string
+}
+
+func (m pcMarsh) MarshalJSON() ([]byte, error) {
+	return []byte(fmt.Sprintf(" { \"g\" : %d , \"s\" : %q } ", m.G, m.S)), nil
 }
 
 func init() { subcmds["pcache"] = pcacheMain }
